@@ -5,9 +5,10 @@ import (
 	"context"
 	"errors"
 	"io"
+	"net/http"
 	"net/url"
-	"os"
 	"sort"
+	"strconv"
 	"strings"
 
 	"github.com/streamingfast/dstore"
@@ -21,18 +22,24 @@ type MemStore struct {
 	files      *map[string][]byte
 	prefix     string
 	failWrites *int // number of coming WriteObject calls that consume their reader and then fail (transient fault)
-	disk       dstore.Store // native replay of URL-addressed stores: a local directory store
+	failAt     *int // k > 0: the k-th coming WriteObject call fails that way (once)
 }
 
 func NewMemStore() *MemStore {
 	m := map[string][]byte{}
-	n := 0
-	return &MemStore{files: &m, failWrites: &n}
+	n, k := 0, 0
+	return &MemStore{files: &m, failWrites: &n, failAt: &k}
 }
 
 // FailNextWrites makes the next n WriteObject calls read their content and then
 // return a transient error without storing anything.
 func (m *MemStore) FailNextWrites(n int) { *m.failWrites = n }
+
+// FailWriteNumber makes exactly the k-th coming WriteObject call fail that way.
+func (m *MemStore) FailWriteNumber(k int) { *m.failAt = k }
+
+// FailWritePending reports whether the write FailWriteNumber designated has not happened yet.
+func (m *MemStore) FailWritePending() bool { return *m.failAt > 0 }
 
 var errTransientWrite = errors.New("mem store: transient write failure")
 
@@ -41,41 +48,16 @@ type memReader struct{ *bytes.Reader }
 func (memReader) Close() error { return nil }
 
 func (m *MemStore) Put(name string, content []byte) {
-	if m.disk != nil {
-		if err := m.disk.WriteObject(context.Background(), name, bytes.NewReader(content)); err != nil {
-			panic(err)
-		}
-		return
-	}
 	(*m.files)[m.prefix+name] = content
 }
 
 func (m *MemStore) Get(name string) ([]byte, bool) {
-	if m.disk != nil {
-		r, err := m.disk.OpenObject(context.Background(), name)
-		if err != nil {
-			return nil, false
-		}
-		defer r.Close()
-		b, err := io.ReadAll(r)
-		if err != nil {
-			panic(err)
-		}
-		return b, true
-	}
 	b, ok := (*m.files)[m.prefix+name]
 	return b, ok
 }
 
 func (m *MemStore) Names() []string {
 	var out []string
-	if m.disk != nil {
-		if err := m.disk.Walk(context.Background(), "", func(n string) error { out = append(out, n); return nil }); err != nil {
-			panic(err)
-		}
-		sort.Strings(out)
-		return out
-	}
 	for k := range *m.files {
 		if strings.HasPrefix(k, m.prefix) {
 			out = append(out, k[len(m.prefix):])
@@ -106,6 +88,12 @@ func (m *MemStore) WriteObject(ctx context.Context, base string, f io.Reader) er
 	if *m.failWrites > 0 {
 		*m.failWrites--
 		return errTransientWrite
+	}
+	if *m.failAt > 0 {
+		*m.failAt--
+		if *m.failAt == 0 {
+			return errTransientWrite
+		}
 	}
 	(*m.files)[m.prefix+base] = b
 	return nil
@@ -150,13 +138,13 @@ func (m *MemStore) WalkFrom(ctx context.Context, prefix, startingPoint string, f
 }
 
 func (m *MemStore) SubStore(sub string) (dstore.Store, error) {
-	return &MemStore{files: m.files, prefix: m.prefix + sub + "/", failWrites: m.failWrites}, nil
+	return &MemStore{files: m.files, prefix: m.prefix + sub + "/", failWrites: m.failWrites, failAt: m.failAt}, nil
 }
 
-func (m *MemStore) BaseURL() *url.URL              { return &url.URL{Scheme: "mem", Path: "/" + m.prefix} }
+func (m *MemStore) BaseURL() *url.URL             { return &url.URL{Scheme: "mem", Path: "/" + m.prefix} }
 func (m *MemStore) ObjectPath(base string) string { return m.prefix + base }
 func (m *MemStore) ObjectURL(base string) string  { return "mem://" + m.prefix + base }
-func (m *MemStore) SetMeter(meter dstore.Meter)    {}
+func (m *MemStore) SetMeter(meter dstore.Meter)   {}
 
 // URLStore is the store handed out by URL: it is also dstore.Clonable, like the real stores
 // the services open (plain MemStores handed directly to the storage layer are not, so that
@@ -164,11 +152,11 @@ func (m *MemStore) SetMeter(meter dstore.Meter)    {}
 type URLStore struct{ *MemStore }
 
 func (u *URLStore) SubStore(sub string) (dstore.Store, error) {
-	return &URLStore{&MemStore{files: u.files, prefix: u.prefix + sub + "/", failWrites: u.failWrites}}, nil
+	return &URLStore{&MemStore{files: u.files, prefix: u.prefix + sub + "/", failWrites: u.failWrites, failAt: u.failAt}}, nil
 }
 
 func (u *URLStore) Clone(ctx context.Context, opts ...dstore.Option) (dstore.Store, error) {
-	return &URLStore{&MemStore{files: u.files, prefix: u.prefix, failWrites: u.failWrites}}, nil
+	return &URLStore{&MemStore{files: u.files, prefix: u.prefix, failWrites: u.failWrites, failAt: u.failAt}}, nil
 }
 
 // StoreByURL is what the checked code gets from dstore.NewStore / NewDBinStore (the engine
@@ -190,8 +178,6 @@ func HookNewDBinStore(baseURL string, opts ...dstore.Option) (dstore.Store, erro
 // against the real build); the engine intercepts it and answers false.
 func Native() bool { return true }
 
-var tempDirs []string
-
 // NewURLStore returns an empty object store together with the URL under which the checked
 // code's own dstore.NewStore(url, "zst", "zstd", ...) opens it. Under the engine that is an
 // in-memory store handed out by the redirected constructor; natively it is a directory
@@ -202,34 +188,25 @@ func NewURLStore(name string) (*MemStore, string) {
 		StoreByURL["mem://"+name] = m
 		return m, "mem://" + name
 	}
-	dir, err := os.MkdirTemp("", "verif-"+name+"-")
-	if err != nil {
-		panic(err)
-	}
-	tempDirs = append(tempDirs, dir)
-	d, err := dstore.NewStore("file://"+dir, "zst", "zstd", true)
-	if err != nil {
-		panic(err)
-	}
+	// native replay: the replay build patches dstore.NewStore to look the URL up in net/http's
+	// default mux first (vcheck, patchedDstore), so the checked code gets this very store
+	urlCounter++
+	url := "mem://" + name + "-" + strconv.Itoa(urlCounter)
 	m := NewMemStore()
-	m.disk = d
-	return m, "file://" + dir
+	http.Handle("verif-store.invalid/"+strings.ReplaceAll(strings.ReplaceAll(url, ":", "-"), "/", "-"), &URLStore{m})
+	return m, url
 }
 
-func RemoveURLStores() {
-	for _, d := range tempDirs {
-		os.RemoveAll(d)
-	}
-	tempDirs = nil
-}
+var urlCounter int
+
+// ServeHTTP makes a URLStore registrable in net/http's default mux, the registry the patched
+// dstore.NewStore of the replay build looks stores up in.
+func (u *URLStore) ServeHTTP(http.ResponseWriter, *http.Request) {}
+
+// RemoveURLStores is kept for harnesses written when native URL stores were directories.
+func RemoveURLStores() {}
 
 // Delete removes a file (harness side: eviction).
 func (m *MemStore) Delete(name string) {
-	if m.disk != nil {
-		if err := m.disk.DeleteObject(context.Background(), name); err != nil {
-			panic(err)
-		}
-		return
-	}
 	delete(*m.files, m.prefix+name)
 }
